@@ -160,3 +160,25 @@ def rope_eq(got, exp):
             ei += 1
             eo = 0
     return True if ok else 'text_differs'
+
+
+def expand_concrete_tokens(abbr, config):
+    """emmet.expand on a CONCRETE abbreviation string with both tokenizers run outside the tracer (identical tokens);
+    parser, converter, resolvers and formatters stay under the engine.  Used where the string is chosen by selectors."""
+    import emmet.css_abbreviation as _css
+    real_css = _css.tokenize
+
+    def css_hook(source, is_value=False):
+        with untraced():
+            return real_css(source, is_value)
+
+    def hook(source):
+        with untraced():
+            return _REAL_TOKENIZE(source)
+    _ab.tokenize = hook
+    _css.tokenize = css_hook
+    try:
+        return emmet.expand(abbr, config)
+    finally:
+        _ab.tokenize = _REAL_TOKENIZE
+        _css.tokenize = real_css
